@@ -57,12 +57,18 @@ class Conversion(Harness):
         pspec = PS.sem_problem(SX.read_text(G.ma_problem_text(na)), dspec)
         objects = dict(pspec["objects"])
         rnd = random.Random(inp["seed"])
-        plan, final_seq = _walk(dspec, pspec, rnd, rnd.randint(1, 6), na)
+        if "fixed_plan" in inp:       # replay / known-finding witness: a given valid plan instead of a random walk
+            plan = [(c[0], tuple(c[1:])) for c in inp["fixed_plan"]]
+            final_seq = (frozenset(pspec["facts"]), dict(pspec["fluents"]))
+            for c in plan:
+                final_seq = SEM.succ(dspec["actions"][c[0]], c[1], final_seq, objects, dspec["types"])
+        else:
+            plan, final_seq = _walk(dspec, pspec, rnd, rnd.randint(1, 6), na)
         agents = G.MA_AGENTS[:na]
         text = "".join((f"{k}: " if inp["numbered"] else "") + G.call_text(c) + "\n" for k, c in enumerate(plan))
         p = RA.write_tmp(text, ".plan")
         r = RA.outcome(PlanConverter(dom).convert_plan, prob, p, list(agents), inp["constraint"])
-        info = {**inp, "plan": [list((c[0],) + c[1]) for c in plan]}
+        info = {**inp, "fixed_plan": [list((c[0],) + c[1]) for c in plan]}
         if r[0] != "ok":
             return [Failure(clause="a valid sequential plan is converted", expected="joint plan", observed=r, input=info)]
         joint = r[1]
